@@ -62,7 +62,7 @@ def parseOp (toks : List String) : Option Op :=
   | ["close", h] => h.toNat?.map Op.close
   | ["read", h] => h.toNat?.map Op.read
   | ["write", h] => h.toNat?.map Op.write
-  | ["setrd", h, v] => h.toNat?.bind (fun h => if v = "past" then some (.setrd h true) else if v = "zero" then some (.setrd h false) else none)
+  | ["setrd", h, v] => h.toNat?.bind (fun h => if v = "past" then some (.setrd h true) else if v = "zero" || v = "future" then some (.setrd h false) else none)
   | ["setwd", h] => h.toNat?.map Op.setwd
   | ["feed"] => some .feed
   | _ => none
